@@ -147,8 +147,9 @@ class Real:
 
     def window(self, a):
         T = self.cfg['T']
-        st = None if (a['ws'] <= 1 and self.form == 'scalar') else self.user_time(self.step_time(a['ws']))
-        en = None if (a['we'] >= T + 1 and self.form == 'scalar') else self.user_time(self.step_time(a['we']))
+        ws, we = a.get('rws', a['ws']), a.get('rwe', a['we'])      # (rws, rwe): window given to the object when a wrapper clips it
+        st = None if (ws <= 1 and self.form == 'scalar') else self.user_time(self.step_time(ws))
+        en = None if (we >= T + 1 and self.form == 'scalar') else self.user_time(self.step_time(we))
         return st, en
 
     def takes(self, a, sense):
@@ -175,6 +176,30 @@ class Real:
     def build_asset(self, i):
         a = self.cfg['assets'][i]
         nm = self.names(i)
+        if a.get('scale'):
+            # the configuration states the asset AT the scale; the object is the base asset (capacities divided by scale/norm)
+            # wrapped in a ScaledAsset whose scale is fixed (or free within [smin, smax] when 'scale_range' is given)
+            sc, norm, fix = a['scale']
+            f = norm / sc
+            base = dict(a)
+            base.pop('scale')
+            for k in ('lo', 'hi'):
+                if k in base:
+                    base[k] = [v * f for v in base[k]] if isinstance(base[k], list) else base[k] * f
+            for k in ('size', 'cin', 'cout', 'start', 'end', 'inflow'):
+                if k in base:
+                    base[k] = base[k] * f
+            saved = self.cfg['assets'][i]
+            self.cfg['assets'][i] = base
+            try:
+                bobj = self.build_asset(i)
+            finally:
+                self.cfg['assets'][i] = saved
+            bobj.name = nm + '_base'
+            smin, smax = a.get('scale_range', (sc, sc))
+            st, en = self.window(a)
+            return eao.assets.ScaledAsset(name=nm, base_asset=bobj, start=st, end=en, wacc=self.asset_wacc(a), min_scale=float(smin),
+                                          max_scale=float(smax), norm_scale=float(norm), fix_costs=float(fix) / self.r)
         N = self.nodeobjs
         k = a['kind']
         A = eao.assets
@@ -254,7 +279,10 @@ class Real:
             if not ext:   # at least one external node is required by the constructor
                 ext = [self.nodeobjs[n] for n in sorted(self.cfg['nodes']) if self.nodenames(n) in inner_nodes][:1]
             self._ext_names = [n.name for n in ext]
-            sa = eao.portfolio.StructuredAsset(name=self.struct_name(), nodes=ext, portfolio=eao.portfolio.Portfolio(inner))
+            skw = {}
+            if self.cfg.get('struct_window'):
+                skw = dict(start=self.user_time(self.step_time(self.cfg['struct_window'][0])), end=self.user_time(self.step_time(self.cfg['struct_window'][1])))
+            sa = eao.portfolio.StructuredAsset(name=self.struct_name(), nodes=ext, portfolio=eao.portfolio.Portfolio(inner), **skw)
             placed = False
             for i in self.order:
                 if i in self.struct:
